@@ -190,7 +190,7 @@ def check_frame(cx, chk):
                         chk.violation("C05.frame", "%s %s matches on ParseErrorSpecifics" % (label, short(p)),
                                       "generated code branches on error detail", cx.site(b, i))
     chk.ok("C05.frame", "error field reads", {"error_field_reads_seen": n})
-    chk.floor("C05.frame", "error field reads examined", n, 6)
+    chk.floor("C05.frame", "error field reads examined", n, 3)
 
 
 def run(cx, chk):
